@@ -78,6 +78,32 @@ func (a absAF) bytes() []byte {
 }
 
 // randAF draws a random adaptation field of length ln whose content fits.
+// fullAF: an adaptation field of length ln (>= 4) whose optional fields fill it exactly (no stuffing byte left).
+// variant 0: private data to the end; 1: private data, then an EMPTY extension whose length byte is the last byte;
+// 2: private data and an extension with data; 3: PCR (if it fits) + extension to the end.
+func fullAF(r *rand.Rand, ln, variant int) absAF {
+	a := absAF{Len: ln, Rai: r.Intn(2) == 0}
+	room := ln - 1
+	if variant == 3 && room >= 8 {
+		a.HasPCR, a.PCR = true, rndBytes(r, 6)
+		room -= 6
+	}
+	switch variant {
+	case 0:
+		a.HasTPD, a.TPD = true, rndBytes(r, room-1)
+	case 1:
+		a.HasTPD, a.TPD = true, rndBytes(r, room-2)
+		a.HasAFE, a.AFE = true, []byte{}
+	case 2:
+		n := (room - 2) / 2
+		a.HasTPD, a.TPD = true, rndBytes(r, n)
+		a.HasAFE, a.AFE = true, rndBytes(r, room-2-n)
+	default:
+		a.HasAFE, a.AFE = true, rndBytes(r, room-1)
+	}
+	return a
+}
+
 func randAF(r *rand.Rand, ln int) absAF {
 	a := absAF{Len: ln, Disc: r.Intn(2) == 0, Rai: r.Intn(2) == 0, Espi: r.Intn(2) == 0}
 	room := ln - 1
